@@ -696,6 +696,9 @@ func (t *Term) body() string {
 	case "fp.to_sbv", "fp.to_ubv":
 		fmt.Fprintf(&sb, "((_ %s %d) RTZ %s)", t.op, t.p1, t.args[0].ref())
 		return sb.String()
+	case "to_fp_bits":
+		fmt.Fprintf(&sb, "((_ to_fp 11 53) %s)", t.args[0].ref())
+		return sb.String()
 	case "to_fp_s":
 		fmt.Fprintf(&sb, "((_ to_fp 11 53) RNE %s)", t.args[0].ref())
 		return sb.String()
